@@ -21,7 +21,7 @@ def parse_selftest(paths):
     for p in paths:
         cur = None
         for l in open(p):
-            m = re.match(r"\[(OK|MISSED)\] (\S+) \((.*)\)\s*$", l)
+            m = re.match(r"\[(OK|MISSED|OK-SILENT|FALSE-ALARM)\] (\S+) \((.*)\)\s*$", l)
             if m:
                 cur = os.path.normpath(m.group(2))
                 res[cur] = {"status": m.group(1), "what": m.group(3), "fired": [], "keys": []}
@@ -43,30 +43,34 @@ def main():
     props = [json.loads(l) for l in open(os.path.join(HERE, "properties.jsonl"))]
     man = json.load(open(os.path.join(HERE, "MANIFEST.json")))
     na = {x["property_id"]: x["reason"] for x in man.get("not_applicable", [])}
-    print("| id | title | rules (kinds) | instances on today's tree | own mutants caught | seeded change caught |")
-    print("|---|---|---|---|---|---|")
+    print("| id | title | rules (kinds) | instances on today's tree | own mutants caught | benign edits silent | seeded changes caught |")
+    print("|---|---|---|---|---|---|---|")
     for p in props:
         pid = p["id"]
         if pid in na:
-            print("| %s | %s | not applicable | - | - | - |" % (pid, p["title"]))
+            print("| %s | %s | not applicable | - | - | - | - |" % (pid, p["title"]))
             continue
         d = doc_of(pid) or ""
         kinds = sorted(set(re.findall(r"\bK\d+\b", d)), key=lambda k: int(k[1:]))
-        nrules = len(re.findall(r"^\s*R\d+[a-z]?\s", d, re.M))
+        nrules = len(set(re.findall(r"^\s*([RI]\d+)[a-z]?\b", d, re.M)))
         ev = os.path.join(HERE, "evidence", pid + ".json")
         inst = "-"
         if os.path.exists(ev):
             e = json.load(open(ev))
             inst = "%d (%d held)" % (e["coverage"]["obligations"], e["coverage"]["discharged"])
-        own = [(k, v) for k, v in st.items() if not k.startswith("../seeded") and any(c == pid for c, _ in v["fired"])]
+        allown = [(k, v) for k, v in st.items() if not k.startswith("../seeded") and any(c == pid for c, _ in v["fired"])]
+        own = [(k, v) for k, v in allown if not os.path.basename(k).startswith("benign-")]
+        ben = [(k, v) for k, v in allown if os.path.basename(k).startswith("benign-")]
         ownf = sum(1 for k, v in own if any(c == pid and s == "FIRED" for c, s in v["fired"]))
+        benf = sum(1 for k, v in ben if all(not (c == pid and s == "FIRED") for c, s in v["fired"]))
         seeds = [(k, v) for k, v in st.items() if k.startswith("../seeded/%s" % pid)]
         sf = []
         for k, v in seeds:
             name = k.split("/")[2]
             sf.append("%s: %s" % (name, "yes" if any(c == pid and s == "FIRED" for c, s in v["fired"]) else "**no**"))
-        print("| %s | %s | %d rules: %s | %s | %s | %s |" % (pid, p["title"], nrules, " ".join(kinds), inst,
-                                                    ("%d/%d" % (ownf, len(own))) if own else "-", "; ".join(sf) or "not seeded"))
+        print("| %s | %s | %d rules: %s | %s | %s | %s | %s |" % (pid, p["title"], nrules, " ".join(kinds), inst,
+                                                         ("%d/%d" % (ownf, len(own))) if own else "-", ("%d/%d" % (benf, len(ben))) if ben else "-",
+                                                         "; ".join(sf) or "not seeded"))
     print()
     print("| change | what it does | check | first rule instance that fired |")
     print("|---|---|---|---|")
